@@ -400,22 +400,6 @@ Theorem C02_da_complete_partial : forall exec prov g k C h1 ct c0 outs h2 m,
 Proof. exact da_complete_p. Qed.
 Print Assumptions C02_da_complete_partial.
 
-(* its instance on the model of the first part (default provider, no read fault; h1 may contain crashes) *)
-Theorem C02_da_complete_default_partial : forall exec g k C h1 ct c0 outs h2 m,
-  ChainValid exec g k C -> distinct_commitmentsb C = true ->
-  Forall (item_in C) h1 -> Forall (item_in C) h2 -> forallb is_clean h2 = true ->
-  incl (da_events C (da_handed ct c0 outs)) h2 ->
-  (m <= length C)%nat ->
-  (forall i b, (i < m)%nat -> nth_error C i = Some b ->
-     g_initial g + N.of_nat i <= d_height (n_disk (run exec g h1)) \/ header_delivered h2 b \/
-     scanned ct c0 outs (PH (N.of_nat i))) ->
-  (forall i b, (i < m)%nat -> nth_error C i = Some b -> d_txs (snd b) <> [] ->
-     g_initial g + N.of_nat i <= d_height (n_disk (run exec g h1)) \/ data_delivered h2 b \/
-     scanned ct c0 outs (PD (N.of_nat i))) ->
-  g_initial g + N.of_nat m - 1 <= d_height (n_disk (run exec g (h1 ++ h2))).
-Proof. exact da_complete. Qed.
-Print Assumptions C02_da_complete_default_partial.
-
 (* ---- non-vacuity: the 6-block chain ex6 on a DA layer (heights 1..5, height 3 empty, the header of block 1 above
    its data, block 0 by P2P only); the requests meet a deadline of the DA node, a cancelled context, a request
    timeout, failing Gets (generic, "not found", cancelled), "from the future" twice, and twice more at the tip — 10 failed requests of 16, no
@@ -440,17 +424,17 @@ Example exDA_denied :
   map fst (da_handed ex_da 0 [OIds ENotFound; OOk; OIds ENotFound; OIds ENotFound; OOk]) = [PD 1; PH 2; PD 4; PH 4; PH 5].
 Proof. vm_compute. repeat split; reflexivity. Qed.
 
-(* ---- non-vacuity of the completeness theorems for LONG backlogs: 131 blocks from height 5; blocks 1..130 arrive
+(* ---- non-vacuity of the completeness theorems for LONG backlogs: 111 blocks from height 5; blocks 1..110 arrive
    top-down (every header, every data), then the data of block 0, while the header of block 0 is missing: nothing is
-   applied; the header of block 0 arrives last and the ONE trySyncNextBlock call it triggers applies all 131 blocks (the model's
+   applied; the header of block 0 arrives last and the ONE trySyncNextBlock call it triggers applies all 111 blocks (the model's
    loop has no bound per call: fuel = cached headers + 1) *)
-Definition exB := ex_long 5 131.
-Definition exB_above := flat_map (fun i => [evd exB i 1; evh exB i 1]) (rev (seq 1 130)) ++ [evd exB 0 1].
+Definition exB := ex_long 5 111.
+Definition exB_above := flat_map (fun i => [evd exB i 1; evh exB i 1]) (rev (seq 1 110)) ++ [evd exB 0 1].
 Example exB_valid : ChainValid ex_exec (ex_g 5) 1 exB /\ distinct_commitmentsb exB = true.
 Proof. split; [chain_valid|vm_compute; reflexivity]. Qed.
 Example exB_result :
-  length exB_above = 261%nat /\
+  length exB_above = 221%nat /\
   d_height (n_disk (run ex_exec (ex_g 5) exB_above)) = 4 /\
-  d_height (n_disk (run ex_exec (ex_g 5) (exB_above ++ [evh exB 0 1]))) = 135 /\
-  length (n_log (run ex_exec (ex_g 5) (exB_above ++ [evh exB 0 1]))) = 131%nat.
+  d_height (n_disk (run ex_exec (ex_g 5) (exB_above ++ [evh exB 0 1]))) = 115 /\
+  length (n_log (run ex_exec (ex_g 5) (exB_above ++ [evh exB 0 1]))) = 111%nat.
 Proof. vm_compute. repeat split; reflexivity. Qed.
